@@ -278,6 +278,7 @@ namespace trompeloeil {
          << " at " << loc
          << ". Sequence \"" << seq_name
          << "\" has no more pending expectations\n";
+      TROMPELOEIL_VERIF_EVENT("g_rkind", nullptr, 4);
       send_report<specialized>(s, loc, os.str());
       return;
     }
@@ -311,6 +312,7 @@ namespace trompeloeil {
       }
       first = false;
     }
+    TROMPELOEIL_VERIF_EVENT("g_rkind", nullptr, 4);
     send_report<specialized>(s, loc, os.str());
   }
 
